@@ -577,6 +577,47 @@ func checkC12Gap(c c12GapCase, ctx *vCtx) *vFailure {
 	return nil
 }
 
+// c12.align: the first day of the log is S bytes long, for every S around the sizes at which a reader refills its buffer:
+// the day appended behind it is shown under its own date
+
+type c12AlignCase struct {
+	Size int `json:"size"`
+}
+
+func checkC12Align(c c12AlignCase, ctx *vCtx) *vFailure {
+	first := "2021/03/04:\n  bread: 1\n"
+	pad := c.Size - len(first) - 2
+	if pad < 0 {
+		pad = 0
+	}
+	text := first + "#" + strings.Repeat("p", pad) + "\n" + "2021/03/05:\n  milk: 2\n2021/03/06:\n  tea: 3\n"
+	lp := vWriteFile("c12-align-log.yaml", text)
+	bp := vWriteFile("c12-align-book.yaml", "unused:\n  x: 1\n")
+	r := vRunApp(vInvocation{Args: []string{"--today", vToday, "-d", bp, "-l", lp, "csv", "log"}})
+	ctx.Run(1)
+	ctx.NonTrivial(true)
+	if r.Failed {
+		return vFailf("csv log fails on a log whose first day is %d bytes long: %s", c.Size, r.Err)
+	}
+	want := "2021-03-04,bread,1.000\n2021-03-05,milk,2.000\n2021-03-06,tea,3.000\n"
+	if r.Stdout != want {
+		return vFailf("csv log of a log whose first day is %d bytes long (then 2021/03/05 and 2021/03/06):\n%s--- expected:\n%s", c.Size, r.Stdout, want)
+	}
+	return nil
+}
+
+func TestVerifC12Align(t *testing.T) {
+	var space []c12AlignCase
+	for _, around := range []int{4096, 8192, 65536} {
+		for d := -45; d <= 12; d++ {
+			space = append(space, c12AlignCase{Size: around + d})
+		}
+	}
+	vEnum(t, "C12", "c12.align",
+		"a first day of exactly S bytes for every S in 4051..4108, 8147..8204 and 65491..65548 (where a reader refills its buffer), followed by two more days: csv log must show each day under its own date",
+		fmt.Sprintf("%d sizes", len(space)), len(space), func(i int) c12AlignCase { return space[i] }, checkC12Align)
+}
+
 func TestVerifC12Gap(t *testing.T) {
 	gaps := []int{256, 65536}
 	if vThorough() {
@@ -594,6 +635,7 @@ func TestVerifC12Gap(t *testing.T) {
 }
 
 func init() {
+	vRegister("C12", "c12.align", checkC12Align)
 	vRegister("C12", "c12.stateful", checkC12)
 	vRegister("C12", "c12.gap", checkC12Gap)
 }
